@@ -58,9 +58,16 @@ impl ColumnDecoder for VarBytesDecoder {
         block: Arc<DecompressedBlock>,
     ) -> Result<ColumnValues, QueryExecutionError> {
         let row_count = view.header.row_count as usize;
-        let need = row_count
+        let lengths_len = row_count
             .checked_mul(4)
             .ok_or_else(|| QueryExecutionError::ColRead("aux len overflow".into()))?;
+        // When the block has NULL rows, a null bitmap follows the length table in aux.
+        let nulls = if (view.header.flags & ColumnBlockHeader::FLAG_HAS_NULLS) != 0 {
+            Some((view.aux_start + lengths_len, (row_count + 7) / 8))
+        } else {
+            None
+        };
+        let need = lengths_len + nulls.map(|(_, len)| len).unwrap_or(0);
         if view.aux_start + need != view.aux_end {
             return Err(QueryExecutionError::ColRead(
                 "invalid aux length for VarBytes".into(),
@@ -82,7 +89,7 @@ impl ColumnDecoder for VarBytesDecoder {
             ranges.push((view.aux_end + cursor, len));
             cursor = end;
         }
-        Ok(ColumnValues::new(block, ranges))
+        Ok(ColumnValues::new_with_nulls(block, ranges, nulls))
     }
 }
 
